@@ -127,21 +127,27 @@ def publicPairToSecUncompressed (pp : Int × Int) : Except Err Bytes :=
 def byteCount (p : Nat) : Nat := (Nat.log2 p + 1 + 7) / 8
 
 /-- `sec_to_public_pair(sec, generator)` (strict): the pair, before any curve-membership test of the
-uncompressed form -/
+uncompressed form.  A coordinate that is not below the field prime is refused (`EncodingError`): it would be a
+second encoding of the point with the reduced coordinate. -/
 def secToPublicPair (c : CurveParams) (sec : Bytes) : Except Err (Int × Int) :=
   let bc := if c.p = 0 then 0 else byteCount c.p
   let x := fromBytes32 (slice sec 1 (1 + bc))
   let sec0 := sec.take 1
   if sec.length = 1 + bc * 2 then
-    if sec0 = [4] then .ok (x, fromBytes32 (slice sec (1 + bc) (1 + 2 * bc))) else .error .encoding
+    if sec0 = [4] then
+      let y := fromBytes32 (slice sec (1 + bc) (1 + 2 * bc))
+      if x ≥ c.p ∨ y ≥ c.p then .error .encoding else .ok (x, y)
+    else .error .encoding
   else if sec.length = 1 + bc then
     if sec0 = [2] ∨ sec0 = [3] then
-      match Curve.pointsForX c x with
-      | .error e => .error (.curve e)
-      | .ok (even, odd) =>
-        match (if sec0 ≠ [2] then odd else even) with
-        | some q => .ok q
-        | none => .error .type          -- unreachable: `points_for_x` returns affine points
+      if x ≥ c.p then .error .encoding
+      else
+        match Curve.pointsForX c x with
+        | .error e => .error (.curve e)
+        | .ok (even, odd) =>
+          match (if sec0 ≠ [2] then odd else even) with
+          | some q => .ok q
+          | none => .error .type          -- unreachable: `points_for_x` returns affine points
     else .error .encoding
   else .error .encoding
 
